@@ -282,6 +282,9 @@ class RecordRun:
         elif a == "Replay":
             i = act[1] - 1
             self.wire.insert(i + 1, [self.wire[i][0], True])
+        elif a == "ReplayOld":
+            # a frame the receiver has long since consumed (the act[2]-th of the stream) shown again at wire position act[1]
+            self.wire.insert(act[1] - 1, [self.honest[act[2] - 1], True])
         elif a == "Inject":
             i, n = act[1] - 1, act[2]
             body = n.to_bytes(24, "big") + os.urandom(16 + self.rng.choice([0, 1, 40]))
@@ -763,11 +766,21 @@ def run_c06(prop, tier):
             for k in (1, 3):
                 acts = [("Send", x + 1, "-") for x in range(k)] + ([] if cm else [("Read", 0, "-")] * k) + [("Recv", 0, "-")] * k
                 behaviours.append((cm, k, acts, "clean-slow"))
+        # long histories: the nonce counter goes past one byte (and, in thorough, past 600 records); clean, and with the very first
+        # frame shown again where the frame whose nonce has the same low byte is due
+        for k in ((300,) if quick else (300, 700)):
+            sends = [("Send", x + 1, "-") for x in range(k)]
+            behaviours.append((False, k, sends + [("Read", 0, "-")] * k + [("Recv", 0, "-")] * k, "clean-long"))
+            behaviours.append((True, k, sends + [("Recv", 0, "-")] * k, "clean-long"))
+            behaviours.append((False, k, sends + [("Read", 0, "-")] * k + [("Recv", 0, "-")] * 256 + [("ReplayOld", 1, 1)] +
+                               [("Recv", 0, "-")] * (k - 256 + 1) + [("Lose", 0, "-")], "long-replay"))
         cov["behaviours"] = len(behaviours)
         nontrivial = set()
         for (cm, nrec, acts, origin) in behaviours:
             variants = [(d, ch) for d in ("s2r", "r2s") for ch in CHUNKINGS]
             rng.shuffle(variants)
+            if origin in ("clean-long", "long-replay"):
+                variants = [v_ for v_ in variants if v_[1] != "bytes"][:2 if quick else 4]
             for (direction, chunking) in variants[:(3 if quick else 10)]:
                 tid += 1
                 sizes = rng.choice(SIZE_PROFILES[:2] if chunking == "bytes" else SIZE_PROFILES)
@@ -791,7 +804,7 @@ def run_c06(prop, tier):
                 rec["origin"] = origin
                 records.append(rec)
                 runs[tid] = run
-                if any(a[0] in ("Flip", "Delete", "Swap", "Replay", "Inject", "Cut") for a in acts):
+                if any(a[0] in ("Flip", "Delete", "Swap", "Replay", "ReplayOld", "Inject", "Cut") for a in acts):
                     nontrivial.add((tuple(acts), direction, chunking))
         # family: reads and consumers taking turns on one connection (an empty file's consumer expects no bytes while the next
         # header is already waiting)
